@@ -52,5 +52,12 @@ def specLib : Lib where
   split := SeqSpec.split
   words := SeqSpec.words Char.isWhitespace
   lines := SeqSpec.lines '\n'
+  uncons xs := match xs.head? with | some h => some (h, xs.tail) | none => none
+  unsnoc xs := match xs.getLast? with | some e => some (xs.dropLast, e) | none => none
+  findSub := SeqSpec.findSub
+  splitn := SeqSpec.splitn
+  rsplit := SeqSpec.rsplit
+  rsplitn := SeqSpec.rsplitn
+  merge := SeqSpec.mergeE
 
 end Noulith.SeqLib
